@@ -54,7 +54,7 @@ class ValueGen:
                 pool += "~"
             if not (sanitized or padded or self.ff_free) and rng.random() < 0.15:
                 pool += "ÿ"
-            return "".join(rng.choice(pool) for _ in range(n))
+            return V.edges(rng, "".join(rng.choice(pool) for _ in range(n)))
         classes = ["ascii", "high", "ydia", "tilde", "outside"]
         s = V.rand_string(rng, n, tuple(classes), minlen=n)
         return s
